@@ -16,14 +16,14 @@ from vf.props.c14 import fluxes_of
 
 LEVEL = "model_checking"
 META = {
-    "bounds": "scan tables with 2-3 rows and 1-2 columns (parameter and/or initial-value columns), every cell symbolic; steady-state, time-course, "
+    "bounds": "scan tables with 2-3 rows (thorough: also 4 rows, and 5 rows on one worker) and 1-2 columns (parameter and/or initial-value columns), every cell symbolic; steady-state, time-course, "
     "protocol and protocol-time-course scans and their mc.* counterparts; sequential execution and the pool stub with every execution order "
     "(all permutations of <=3 tasks); one failing row (its integration reports failure) at every position; models: decay, 2-variable chain, "
     "and a model whose parameter is an initial assignment of a variable (minimal scenarios)",
     "stubs": ["pebble.ProcessPool.map -> runs each task on a deep copy of the callable and its input in a solver-chosen order, yields results in input order "
               "(pebble's documented contract)", "tqdm -> no-op", "scipy.integrate.solve_ivp/ode -> uninterpreted flow",
               "pd/np/float module globals of mxlpy.model, simulator, simulation, scan, mc, parallel, integrators.int_scipy rebound to proxies"],
-    "outside": "real OS processes and pickling, worker timeouts, more rows than 3 (under per-task isolation the number of workers is immaterial), tqdm",
+    "outside": "real OS processes and pickling, worker timeouts, arbitrary cell order patterns in tables with 4 rows and 2 columns (each column strictly decreasing there), more rows than 5 (under per-task isolation the number of workers is immaterial), tqdm",
     "assumptions_list": ["time points of the scans are concrete dyadic numbers", "real arithmetic"],
 }
 
@@ -174,6 +174,13 @@ class Scan(Scenario):
         base_y = {v: ctx.real(f"i_{v}") for v in names}
         table = {c: [ctx.real(f"cell{r}_{c}") for r in range(self.nrows)] for c in self.cols}
         labels = [5, 2, 9, 1, 7, 3][: self.nrows]  # row labels deliberately not ascending
+        if self.nrows >= 4 and len(self.cols) > 1:
+            # pandas compares the cells of a multi-column table with each other (equality and order patterns multiply the
+            # paths: > 4000 for 4 rows x 2 columns); here every column is strictly decreasing - distinct cells whose sorted
+            # order is the reverse of the input order
+            for c in self.cols:
+                for a, b in zip(table[c], table[c][1:]):
+                    ctx.assume(a > b)
         to_scan = pd.DataFrame(table, index=labels, dtype=object if sym else float)
         if self.fail_row is not None:
             # the designated row's integration reports failure
@@ -357,4 +364,10 @@ def scenarios(tier, seed):
         scs.append(Scan("ia_decay", "tc", ("x",), 2, par))
         scs.append(Scan("ia_decay", "tc", ("kia",), 2, par))
         scs.append(Scan("ia_decay", "ss", ("kia", "x"), 2, par))
+        # lazily read results of all rows after the scan, fluxes first (each row's result must carry its own model)
+        scs.append(Scan("ia_decay", "tc", ("x",), 3, par, read=("fluxes", "variables")))
+        if tier != "quick":
+            scs.append(Scan("ia_decay", "ss", ("x",), 3, par, read=("fluxes", "variables")))
+            scs.append(Scan("ia_decay", "tc", ("kia", "x"), 3, par))
+            scs.append(Scan("ia_decay", "tc", ("x",), 3, par, fail_row=1))
     return scs
